@@ -529,12 +529,82 @@ fn lockstep(ctx: &mut Ctx, i: u64) {
     ctx.case(l.fingerprint() ^ 0x10c, true);
 }
 
+/// Lookups in storage order on a sync- and an async-opened archive; now and then ONE stream operation of the lookup fails on
+/// both sides (a transient fault). Both sides must fail alike, and the lookups that follow must return the tiles' bytes.
+fn transient_twins(ctx: &mut Ctx, i: u64) {
+    let l = logical_for(ctx, "c12.transient", i * 4 + 12);
+    let mut rng = ctx.rng("c12.transientr", i);
+    let Ok(bytes) = write_sync(l.build()) else { return };
+    let Ok(v) = R::validate(&bytes, &crate::checks::common::strict_opts()) else { return };
+    // ids ordered by where their content is stored
+    let mut order: Vec<(u64, u64)> = v.abs.iter().map(|(id, (off, _))| (*off, *id)).collect();
+    order.sort_unstable();
+    if order.is_empty() {
+        return;
+    }
+    let mat = json!({"archive": l.describe()});
+    let s = crate::io::Shared::recording(bytes.clone());
+    let a = crate::io::SharedA::recording(bytes.clone(), true);
+    let (ms, ma) = (s.clone(), a.clone());
+    let res = guard(|| -> Result<u64, String> {
+        let mut ps = PMTiles::from_reader(s).map_err(|e| format!("sync open failed: {e}"))?;
+        let mut pa = block_on(PMTiles::from_async_reader(a)).map_err(|e| format!("async open failed: {e}"))?;
+        let mut n = 0u64;
+        let mut fail_at: Option<usize> = None;
+        for (step, (_, id)) in order.iter().cycle().take(order.len().min(40) * 2).enumerate() {
+            if rng.chance(1, 5) {
+                // exactly one operation of this lookup fails on both sides: its seek (0) or its read (1)
+                let which = rng.below(2);
+                {
+                    let mut c = ms.core.lock().expect("lock");
+                    c.fail_once_at = Some(c.nops + which);
+                }
+                {
+                    let mut c = ma.core.lock().expect("lock");
+                    c.fail_once_at = Some(c.nops + which);
+                }
+                fail_at = Some(step);
+            }
+            let rs = ps.get_tile_by_id(*id).map_err(|e| e.kind());
+            let ra = block_on(pa.get_tile_by_id_async(*id)).map_err(|e| e.kind());
+            ms.core.lock().expect("lock").fail_once_at = None;
+            ma.core.lock().expect("lock").fail_once_at = None;
+            let want = l.tiles.get(id).map(|c| c.as_ref().clone());
+            match (&rs, &ra) {
+                (Ok(x), Ok(y)) => {
+                    if x != y || *x != want {
+                        return Err(format!("step {step}: lookup of {id}: sync {:?} bytes, async {:?} bytes, stored {:?} bytes (last fault at step {fail_at:?})", x.as_ref().map(Vec::len), y.as_ref().map(Vec::len), want.as_ref().map(Vec::len)));
+                    }
+                }
+                (Err(_), Err(_)) => {}
+                _ => return Err(format!("step {step}: lookup of {id}: one side failed, the other did not (sync {:?}, async {:?})", rs.as_ref().map(|o| o.as_ref().map(Vec::len)), ra.as_ref().map(|o| o.as_ref().map(Vec::len)))),
+            }
+            n += 1;
+        }
+        Ok(n)
+    });
+    match res {
+        Err(p) => ctx.panic("PMTiles::get_tile_by_id_async", &p, mat),
+        Ok(Err(e)) => ctx.violation("PMTiles::get_tile_by_id_async", "readers-differ", "lookups around a transient stream fault answer differently through the async API", &e, mat),
+        Ok(Ok(n)) => ctx.add("lookups_around_transient_faults_equal", n),
+    }
+    ctx.case(l.fingerprint() ^ 0x7a, true);
+}
+
 pub fn run(ctx: &mut Ctx) {
     let mut case = 0u64;
     for i in 0..ctx.n(150, 3000) {
         if ctx.mine(case) {
             ctx.begin(case);
             lockstep(ctx, i);
+            ctx.end(case);
+        }
+        case += 1;
+    }
+    for i in 0..ctx.n(100, 2000) {
+        if ctx.mine(case) {
+            ctx.begin(case);
+            transient_twins(ctx, i);
             ctx.end(case);
         }
         case += 1;
